@@ -143,7 +143,7 @@ class RandomSearcher(StochasticAndFilterDuplicatesSearcher):
             self.config_space,
             metric=self._metric,
             points_to_evaluate=[],
-            debug_log=self._debug_log,
+            debug_log=False if self._debug_log is None else self._debug_log,
             allow_duplicates=self._allow_duplicates,
         )
         new_searcher._resource_attr = self._resource_attr
@@ -362,8 +362,14 @@ class GridSearcher(StochasticSearcher):
             config_space=self.config_space,
             num_samples=self.num_samples,
             metric=self._metric,
-            shuffle_config=self._shuffle_config,
+            points_to_evaluate=[],
+            shuffle_config=False,
+            allow_duplicates=self._allow_duplicates,
         )
+        # The order of the grid is part of the immutable state (it was shuffled with the
+        # seed ``self`` was created with): copy it instead of re-shuffling with the default seed
+        new_searcher._shuffle_config = self._shuffle_config
+        new_searcher.hp_values_combinations = list(self.hp_values_combinations)
         new_searcher._restore_from_state(state)
         return new_searcher
 
